@@ -12,7 +12,20 @@ ASSUME = [
 
 
 def run(tier):
-    return e3.run_property(PID, tier, ["recovery", "recovery_errors"], {"C16"}, FUNCTIONS, ASSUME)
+    # tables half (engine E1): grammars with `!`: the error column is the last terminal index, `!` is not named in the terminal table,
+    # and the plain LR run over the real tables accepts exactly the sentences derivable WITHOUT `!` (so those never need recovery)
+    from vlib import e1, e1run
+    from corpus import base
+    from props import c01
+    n = 4 if tier == "quick" else 6
+    jobs = []
+    for g in base.recovery_grammars():
+        for algo in (("lane",) if tier == "quick" else ("lane", "lr1", "lalr")):
+            for s in g.pub_nts():
+                jobs.append(e1.Job(g, frozenset(), algo, s, n, ["lang"]))
+    rc = e1run.run_property(PID, tier, jobs, native_len=0, timeout_s=900 if tier == "quick" else 3000, functions=c01.FUNCTIONS + FUNCTIONS,
+                            assumptions=c01.ASSUME + ASSUME + ["tables half: `!` is read as a terminal that never occurs in the input, so the specification language is that of the grammar without its error alternatives"])
+    return e3.add_stage(PID, tier, rc, ["recovery", "recovery_errors"], {"C16"})
 
 
 def replay(path):
